@@ -64,8 +64,8 @@ def c_outcome(o: tuple) -> str:
 
 
 def model_term(prog: dict[str, Any], data: dict[str, Any], suppress: bool, which: str = "render_template",
-               trim: str = "+") -> str:
-    prog = clf.model_ast(prog, trim)
+               trim: str = "+", sides: dict[str, list] | None = None) -> str:
+    prog = clf.model_ast(prog, trim, sides)
     cfg = f"{{| suppress := {C.cbool(suppress)}; depth_limit := 30%Z |}}"
     return (f"outcome_of ({which} {cfg} {clf.c_loader(prog['loader'])} 400%nat "
             f"{clf.c_block(prog['main'])} [{clf.c_ns(data)}] {C.cstr('main')})")
@@ -98,19 +98,28 @@ def main(chk: C.Check, build: C.Build) -> None:
     evaluations = 0
     samples = []
     cfgs: dict[tuple, int] = {}
+    nmarked = 0
     for pi in range(nprog):
-        prog = clf.gen_program(r, depth=3 if not thorough else r.choice([3, 4]))
+        prog = clf.canon(clf.gen_program(r, depth=3 if not thorough else r.choice([3, 4])))
         suppress = r.random() < 0.7
         trim = r.choice(["+", "+", "-", "~"])
         shorthand = r.random() < 0.3
         layout_r = C.rng("c01-layout", pi)
+        # explicit whitespace-control markers (-, ~, +) at every markup position of
+        # 60% of the programs; the same markers in both layouts
+        marked = r.random() < 0.6
         clf.SHORTHAND = shorthand
         try:
-            src = clf.p_nodes(prog["main"], layout_r)
-            src_plain = clf.p_nodes(prog["main"], None)
-            loader_src = {k: clf.p_nodes(v, None) for k, v in prog["loader"].items()}
+            src, sd = clf.p_source(prog["main"], layout_r, C.rng("c01-markers", pi) if marked else None)
+            src_plain, sd2 = clf.p_source(prog["main"], None, C.rng("c01-markers", pi) if marked else None)
+            assert sd == sd2
+            sides = {"main": sd}
+            loader_src = {}
+            for k, v in prog["loader"].items():
+                loader_src[k], sides[k] = clf.p_source(v, None, C.rng("c01-markers", pi, k) if marked else None)
         finally:
             clf.SHORTHAND = False
+        nmarked += marked
         cfgs[(trim, suppress, shorthand)] = cfgs.get((trim, suppress, shorthand), 0) + 1
         fs: set[str] = set()
         features(prog, fs)
@@ -127,7 +136,7 @@ def main(chk: C.Check, build: C.Build) -> None:
                              "suppress": suppress, "default_trim": trim, "shorthand_indexes": shorthand, "a": o, "b": o2})
             if o[0] == "T" and len(o[1]) > 0 and len(fs) >= 4:
                 nontrivial.add(src_plain + repr(sorted(data.items(), key=lambda kv: kv[0])))
-            mt = model_term(prog, data, suppress, trim=trim)
+            mt = model_term(prog, data, suppress, trim=trim, sides=sides)
             replay = {"source": src, "loader": loader_src, "data": data, "suppress": suppress,
                       "default_trim": trim, "shorthand_indexes": shorthand,
                       "implementation": o, "how": "Environment subclass with suppress_blank_control_flow_blocks / shorthand_indexes, default_trim, loader=DictLoader(loader): from_string(source).render(**data)"}
@@ -169,7 +178,7 @@ def main(chk: C.Check, build: C.Build) -> None:
                  "limit/offset/continue/reversed/else/break/continue, increment/decrement, cycle, raw, comment, with, "
                  "render (with/for/as/args), include (with/as/args), macro/call; paths, ranges, comparisons, and/or/not, "
                  "12 filters, ternaries) with up to 3 partials, nesting <= 3 (4 in thorough), printed with a random "
-                 "layout, each rendered with 2 generated data sets x suppress_blank_control_flow_blocks in {on,off} x "
+                 "layout and, for 60% of the programs, a random whitespace-control marker (none, -, ~, +) on each side of every tag, output, comment and raw tag, each rendered with 2 generated data sets x suppress_blank_control_flow_blocks in {on,off} x "
                  "default_trim in {+,-,~} x shorthand_indexes in {on,off}; "
                  "non-trivial = distinct (program, data) whose render succeeded with non-empty output and whose program uses >= 4 "
                  "different constructs"),
@@ -177,11 +186,12 @@ def main(chk: C.Check, build: C.Build) -> None:
         "distribution": dist,
         "construct_frequency": dict(sorted(feats.items())),
         "configurations": {repr(k): v for k, v in sorted(cfgs.items())},
+        "programs_with_explicit_markers": nmarked,
         "exhaustive": False,
         "tier_proved": "Core interpreter (CLF) refines the reference semantics; value-semantics laws",
     })
     chk.assumptions += [
-        "no explicit whitespace-control markers in generated programs; for default_trim '-'/'~' the harness gives the model each content run already trimmed by an independent str.strip (marker placement and the parser's trim carry are C18's kernel)",
+        "whitespace control: the harness gives the model each text already trimmed by an independent reference (clf.py_trim: each side of a text as the marker of the markup facing it says, default mode otherwise); the trim function itself is C18's kernel",
         "auto_escape off, default Undefined policy, no resource limits except context depth",
         "cases whose model outcome is OUnmodelled (filter coercions of numeric strings, dict stringification, "
         "ForLoop objects used as data, negative limit/offset) are counted in outside_model_cases and not compared",
